@@ -164,6 +164,41 @@ func c08Deviations() []reqDev {
 	// the largest integer label an envelope can carry and be read back (labels above int64 are an invalid request: C16)
 	add("cose-ext-key-max-int64-as-uint64", "ext", "cose", func(r *reqSpec) { r.ext = []envenc.ExtAttr{{Key: uint64(1)<<63 - 1, Critical: true, Value: "2^63-1"}} })
 	add("cose-ext-key-min-int64", "ext", "cose", func(r *reqSpec) { r.ext = []envenc.ExtAttr{{Key: int64(-1) << 63, Critical: false, Value: "-2^63"}} })
+	// many attributes, long and deeply nested values: nothing in the statement depends on sizes
+	many := func(n int) func(r *reqSpec) {
+		return func(r *reqSpec) {
+			r.ext = nil
+			for i := 0; i < n; i++ {
+				r.ext = append(r.ext, envenc.ExtAttr{Key: fmt.Sprintf("io.example.attr-%03d", i), Critical: i%3 == 0, Value: fmt.Sprintf("value-%d", i)})
+			}
+		}
+	}
+	add("ext-11-attributes", "ext", "", many(11))
+	add("ext-16-attributes", "ext", "", many(16))
+	add("ext-24-attributes", "ext", "", many(24))
+	add("ext-70-attributes", "ext", "", many(70))
+	add("ext-300-attributes", "ext", "", many(300))
+	add("ext-value-nested-12-levels", "ext", "", func(r *reqSpec) {
+		var v any = "leaf"
+		for i := 0; i < 12; i++ {
+			v = []any{v}
+		}
+		r.ext = []envenc.ExtAttr{{Key: "io.example.deep", Critical: true, Value: v}}
+	})
+	add("ext-value-list-of-100", "ext", "", func(r *reqSpec) {
+		l := make([]any, 100)
+		for i := range l {
+			l[i] = fmt.Sprintf("e%d", i)
+		}
+		r.ext = []envenc.ExtAttr{{Key: "io.example.long-list", Critical: false, Value: l}}
+	})
+	add("ext-value-map-of-100", "ext", "", func(r *reqSpec) {
+		m := map[string]any{}
+		for i := 0; i < 100; i++ {
+			m[fmt.Sprintf("k%03d", i)] = "v"
+		}
+		r.ext = []envenc.ExtAttr{{Key: "io.example.big-map", Critical: false, Value: m}}
+	})
 	add("cose-ext-int-typed-key", "ext", "cose", func(r *reqSpec) { r.ext = []envenc.ExtAttr{{Key: 1000, Critical: true, Value: "int-typed"}} })
 	add("cose-ext-mixed-integer-types-and-text", "ext", "cose", func(r *reqSpec) {
 		r.ext = []envenc.ExtAttr{{Key: 107, Critical: true, Value: "int"}, {Key: uint16(109), Critical: true, Value: "uint16"}, {Key: int64(111), Critical: false, Value: "int64"}, {Key: "io.example.text", Critical: true, Value: "text"}, {Key: int8(-3), Critical: true, Value: "int8"}}
